@@ -16,12 +16,12 @@ for cf in sorted(glob.glob(os.path.join(src, "C*", "out", "*.confirm.json"))):
     d = os.path.join(VERIF, "seeded", f"{prop}-{which}")
     os.makedirs(d, exist_ok=True)
     shutil.copy(os.path.join(out, f"{which}.patch.diff"), os.path.join(d, "patch.diff"))
-    place = re.sub(r"^/tmp/seed[2345]?/C\d+/wt/", "", m["demo_place"])
+    place = re.sub(r"^/tmp/seed[23456]?/C\d+/wt/", "", m["demo_place"])
     demo_name = "demo.rs"
     shutil.copy(os.path.join(out, f"{which}.demo.rs"), os.path.join(d, demo_name))
     cmd = re.sub(r"export\s+CARGO_TARGET_DIR=\S+\s*", "", m["demo_cmd"])
     cmd = re.sub(r"CARGO_TARGET_DIR=\S+\s*", "", cmd)
-    cmd = re.sub(r"cd\s+/tmp/seed[2345]?/C\d+/wt\s*(&&|;)\s*", "", cmd).replace("export ;", "").strip()
+    cmd = re.sub(r"cd\s+/tmp/seed[23456]?/C\d+/wt\s*(&&|;)\s*", "", cmd).replace("export ;", "").strip()
     if "--offline" not in cmd:
         cmd = cmd.replace("cargo run", "cargo run --offline").replace("cargo test", "cargo test --offline")
     meta = {
